@@ -213,8 +213,10 @@ class BinaryCarver(BaseCarver):
         # number of values taken by the features
         n_mod_x = xtab.shape[0]
 
-        # Chi2 statistic
-        chi2 = chi2_contingency(xtab)[0]
+        # Chi2 statistic (no association can be measured when a class or a modality is unobserved)
+        chi2 = 0
+        if all(xtab.sum(axis=0) > 0) and all(xtab.sum(axis=1) > 0):
+            chi2 = chi2_contingency(xtab)[0]
 
         # Cramér's V
         cramerv = sqrt(chi2 / n_obs)
